@@ -171,7 +171,8 @@ impl Context {
                     }
                 }
             }
-            if !changed {
+            // A macro that contains itself twice doubles the text at every pass
+            if !changed || res.len() > 65536 {
                 break;
             }
         }
